@@ -22,7 +22,7 @@ using eventx::ThreadPool; using eventx::WorkThread;
 #endif
 namespace {
 const int MAXTASK = 4;
-struct Rec { bool accepted = false, has_cb = false; int prio = 0; int started = 0, finished = 0, cb = 0; int start_thr = -1, cb_thr = -1; long fin_seq = 0, cb_seq = 0; int cancel_ret = -1; cabinet::Token tok; };
+struct Rec { bool accepted = false, has_cb = false; int prio = 0; int started = 0, finished = 0, cb = 0; int start_thr = -1, cb_thr = -1; long fin_seq = 0, cb_seq = 0, start_seq = 0; int cancel_ret = -1; cabinet::Token tok; };
 Rec R[MAXTASK]; long g_seq = 0; int g_running = 0, g_max_running = 0;
 std::mutex *g_m; std::condition_variable *g_cv;
 ThreadPool *g_tp = nullptr; WorkThread *g_wt = nullptr; FakeLoop *g_loop = nullptr;
@@ -50,6 +50,10 @@ uint32_t on_point() {
       if (!head && !by_cancel && !g_in_cleanup) sched_fail("pick-order: a waiting task left the queue although it was not the head of the highest-priority queue");
     }
   }
+  // first-in-first-out within a priority: tasks that stay in a waiting queue keep their relative order (a cancel must not reorder the rest)
+  if (g_prev.valid) for (int i = 0; i < THREAD_POOL_PRIO_SIZE; i++) { int last = -1;
+    for (int k = 0; k < g_prev.n[i]; k++) { int at = -1; for (int j = 0; j < cur.n[i]; j++) if (cur.t[i][j] == g_prev.t[i][k]) at = j; if (at < 0) continue;
+      if (at < last) sched_fail("fifo-order: the waiting tasks of one priority were reordered"); last = at; } }
   g_prev = cur; return 0;
 }
 void dump() {
@@ -60,7 +64,7 @@ void dump() {
 
 std::function<void()> body_of(int i) {
   return [i] {
-    { std::lock_guard<std::mutex> g(*g_m); R[i].started++; R[i].start_thr = sched_self(); g_running++; if (g_running > g_max_running) g_max_running = g_running; }
+    { std::lock_guard<std::mutex> g(*g_m); R[i].started++; R[i].start_thr = sched_self(); R[i].start_seq = ++g_seq; g_running++; if (g_running > g_max_running) g_max_running = g_running; }
     { std::lock_guard<std::mutex> g(*g_m); R[i].finished++; R[i].fin_seq = ++g_seq; g_running--; g_cv->notify_all(); }
   };
 }
@@ -121,6 +125,8 @@ void final_oracle(bool waited_all) {
     if (r.finished && r.has_cb && r.cb != 1) sched_fail("task %d finished but its completion callback ran %d times", i, r.cb);
     sched_note("O t%d:s%d,f%d,c%d", i, r.started, r.finished, r.cb);
   }
+  // with a single worker the body start order IS the pick order: same priority => submission order (tasks are numbered in submission order)
+  if (g_max == 1) for (int i = 0; i < MAXTASK; i++) for (int j = i + 1; j < MAXTASK; j++) if (R[i].started && R[j].started && R[i].prio == R[j].prio && R[i].start_seq > R[j].start_seq) sched_fail("fifo-order: task %d (same priority, submitted earlier) started after task %d", i, j);
   if (g_max_running > g_max) sched_fail("%d task bodies ran concurrently, max is %d", g_max_running, g_max);
 }
 
@@ -142,7 +148,8 @@ void scenario(int scen) {
       case 3: submit(0, 0, true); wait_task(0); loop.drain(); submit(1, 0, true); wait_task(1); waited = true; break;   // worker retirement, then a new worker
       case 4: submit(0, 1, false); submit(1, 0, false); status(1); cancel(0); break;                      // cancel/status racing with the pick, then cleanup
       case 5: do_cleanup(); g_in_cleanup = false; loop.drain(); if (!tp.initialize(g_min, g_max)) sched_fail("re-initialize failed"); submit(0, 0, true); wait_task(0); waited = true; break;   // cleanup then re-initialise
-      case 6: submit(0, 0, false); submit(1, -1, false); submit(2, 0, false); break;                       // queue then cleanup: pending tasks dropped, never run twice
+      case 6: submit(0, 0, false); submit(1, -1, false); submit(2, 0, false); break;
+      case 7: submit(0, 0, false); submit(1, 0, false); submit(2, 0, false); submit(3, 0, false); cancel(1); wait_task(0); wait_task(1); wait_task(2); wait_task(3); waited = true; break;   // three same-priority waiters, cancel in the middle                       // queue then cleanup: pending tasks dropped, never run twice
     }
     do_cleanup();
     final_oracle(waited);
